@@ -276,7 +276,7 @@ let run_check line =
   | None -> verdict false ("outcome:" ^ i)
 
 (* ---- end to end: rows of the table printed by the real runner, one per thread count ----
-   impl line: "R <T> IN <s> <durations> <alloc infos> ROW fastest|slowest|median|mean|samples|iters BLOCKS <labels> ;; R ..".
+   impl line: "R <T> IN <s> <durations> <alloc infos> ROW fastest|slowest|median|mean|samples|iters BLOCKS <labels> TP <throughput rows> ;; R ..".
    A duration cell such as "42.83_ns" is the value truncated to 4 significant digits in its unit with trailing
    zeros removed (C18): it stands for the interval [p, p + 10^-(4 - integer digits)) units. *)
 let rec pow10 k = if k <= 0 then n_of_small 1 else N.mul ten (pow10 (k - 1))
@@ -311,12 +311,69 @@ let cell_ok (cell : string) (v : n) : bool =
        end)
   | _ -> false
 
-(* one run: thread count, the inputs (sample size, durations, allocation infos), the row, the printed blocks *)
-let parse_e2e_run (part : string) : (string * inputs * string list * string) option =
+(* one run: thread count, the inputs (sample size, durations, allocation infos, per-sample item counts), the row,
+   the printed blocks, the throughput rows *)
+let parse_e2e_run (part : string) : (string * inputs * string list * string * string) option =
   match toks part with
-  | ["R"; t; "IN"; s; d; a; "ROW"; row; "BLOCKS"; blocks] ->
-    Some (t, parse_case (String.concat " " [s; d; a; "|||"; "0000"]), String.split_on_char '|' row, blocks)
+  | ["R"; t; "IN"; s; d; a; c; u; "ROW"; row; "BLOCKS"; blocks; "TP"; tp] ->
+    Some (t, parse_case (String.concat " " [s; d; a; c; u]), String.split_on_char '|' row, blocks, tp)
   | _ -> None
+
+(* A throughput cell such as "653.7_Mitem/s": count * 10^12 / picos truncated to 4 significant digits in its scale
+   (computed in f64: a relative slack of 1e-9 is allowed at the interval's ends).  Is it based on count [c] and
+   time [t] picoseconds? *)
+let tp_scale (u : string) : n option =
+  let base = ["item/s"; "B/s"; "char/s"; "Hz"] in
+  if List.mem u base then Some (pow10 0)
+  else if String.length u > 1 && List.mem (String.sub u 1 (String.length u - 1)) base then
+    (match u.[0] with
+     | 'K' -> Some (pow10 3) | 'M' -> Some (pow10 6) | 'G' -> Some (pow10 9) | 'T' -> Some (pow10 12)
+     | 'P' -> Some (pow10 15) | _ -> None)
+  else None
+
+let tp_cell_ok (cell : string) (c : n) (t : n) : bool =
+  match String.split_on_char '_' cell with
+  | [num; u] ->
+    (match tp_scale u with
+     | None -> false
+     | Some scale ->
+       let (ip, fp) = match String.split_on_char '.' num with
+         | [a] -> (a, "") | [a; b] -> (a, b) | _ -> ("x", "") in
+       let digits_ok x = x <> "" && String.for_all (fun ch -> ch >= '0' && ch <= '9') x in
+       if not (digits_ok ip) || (fp <> "" && not (digits_ok fp)) || t = N0 then false
+       else begin
+         let dmax = max 0 (4 - String.length ip) in
+         let d = String.length fp in
+         if d > dmax then false
+         else begin
+           let p = N.mul (n_of_string (ip ^ fp)) (pow10 (dmax - d)) in
+           (* p/10^dmax * scale <= v*(1+e)  and  v*(1-e) < (p+1)/10^dmax * scale,  v = c*10^12/t, e = 10^-9 *)
+           let v_num = N.mul (N.mul c (pow10 12)) (pow10 dmax) in
+           let e9 = pow10 9 in
+           let lhs_lo = N.mul (N.mul (N.mul p scale) t) e9 in
+           let lhs_hi = N.mul (N.mul (N.mul (N.add p (n_of_small 1)) scale) t) e9 in
+           le_n lhs_lo (N.mul v_num (N.add e9 (n_of_small 1)))
+           && lt_n (N.mul v_num (N.sub e9 (n_of_small 1))) lhs_hi
+         end
+       end)
+  | _ -> false
+
+(* the throughput rows of a run: one row (items) iff the kind is reported; every cell based on an admissible count
+   of its column and on the column's time [times] *)
+let tp_ok (inp : inputs) (times : n list) (tp : string) : bool =
+  let items = List.nth inp.in_counters 3 in
+  let n = List.length inp.in_durs in
+  if not items.ci_input || n = 0 then tp = "-"
+  else if List.length items.ci_counts <> n then false
+  else
+    match String.split_on_char '+' tp with
+    | [row] ->
+      (match String.split_on_char '|' row with
+       | [_; _; _; _] as cells ->
+         List.for_all2 (fun (cell, t) cands -> List.exists (fun c -> tp_cell_ok cell c t) cands)
+           (List.combine cells times) (column_counts_spec inp.in_durs items.ci_counts)
+       | _ -> false)
+    | _ -> false
 
 let blocks_s (bs : bool list) =
   let names = ["max_alloc"; "grow"; "shrink"; "alloc"; "dealloc"] in
@@ -353,15 +410,17 @@ let spec_figs (inp : inputs) =
 let figs_s (f, sl, md, me, sc, ic) =
   "t=" ^ String.concat "," (List.map string_of_n [f; sl; md; me]) ^ " sc=" ^ string_of_n sc ^ " ic=" ^ string_of_n ic
 
-(* model line = the implementation's run when its row stands for the model's figures and it shows the blocks the
-   model's statistics call for, else the model's figures and blocks *)
+(* model line = the implementation's run when its row stands for the model's figures, it shows the blocks the
+   model's statistics call for and its throughput cells are based on admissible counts; else the model's figures *)
 let e2e_mode dbg line =
   let (_, i) = split_sb line in
   String.concat " ;; " (List.map (fun part ->
       match parse_e2e_run part with
-      | Some (_, inp, row, blocks) ->
+      | Some (_, inp, row, blocks, tp) ->
         (match model_figs dbg inp with
-         | Some (figs, mb) -> if row_ok row figs && blocks = mb then part else "model " ^ figs_s figs ^ " blocks=" ^ mb
+         | Some (((f, sl, md, me, _, _) as figs), mb) ->
+           if row_ok row figs && blocks = mb && tp_ok inp [f; sl; md; me] tp then part
+           else "model " ^ figs_s figs ^ " blocks=" ^ mb
          | None -> "model panic")
       | None -> "unparsed") (split_runs i))
 
@@ -369,10 +428,13 @@ let e2e_check line =
   let (_, i) = split_sb line in
   let bad = List.filter_map (fun part ->
       match parse_e2e_run part with
-      | Some (t, inp, row, blocks) ->
-        if not (row_ok row (spec_figs inp)) then Some ("t=" ^ t ^ ":row-not-the-statistics-of-that-run's-samples")
+      | Some (t, inp, row, blocks, tp) ->
+        let ((f, sl, md, me, _, _) as figs) = spec_figs inp in
+        if not (row_ok row figs) then Some ("t=" ^ t ^ ":row-not-the-statistics-of-that-run's-samples")
         else if blocks <> blocks_s (blocks_spec inp) then
           Some ("t=" ^ t ^ ":allocation-blocks-shown-not-exactly-those-with-a-nonzero-figure")
+        else if not (tp_ok inp [f; sl; md; me] tp) then
+          Some ("t=" ^ t ^ ":throughput-cell-not-the-count-of-a-sample-that-supplied-the-column's-time")
         else None
       | None -> Some "unparsed") (split_runs i) in
   verdict (bad = []) (String.concat "," bad)
